@@ -21,10 +21,34 @@ CHECKS = {
             'str(ro) before == after for every raised merge in the enumerated scopes and random histories.', '7/C05'),
     'C06': ('exhaustive 2^n unresolvable/duplicate subsets + Hypothesis vs reference model of warnings',
             'All subsets of n<=4/5 named elements for the 7 warn-and-continue kinds; warnings compared as multisets of categories.', '7/C06'),
+    'C07': ('Hypothesis histories (prefix, roDelete, one message of each of 26 classes) vs completion invariants, live + round-tripped + collections',
+            'Every message class is sent to a completed running order in every generated history; content/envelope compared structurally.', '7/C07'),
     'C08': ('exhaustive shape enumeration + Hypothesis documents + damaged text, differential across sources and warning filters',
-            'All roElementAction shapes (9 ops x 8 targets x 8 sources), 16 tags x 24 envelope orders, x {str,bytes,file} x {default,error}.', '7/C08'),
+            'All roElementAction shapes (9 ops x 8 targets x 8 sources), 16 tags x 24 envelope orders, x {str,bytes,file} x {default,error}; real -W error subprocess sample.', '7/C08'),
+    'C09': ('differential: MosCollection.merge vs hand fold over freshly parsed messages (Hypothesis collections, fault placements)',
+            'Self-consistency oracle between two API paths, strict and non-strict, three constructors.', '7/C09'),
+    'C10': ('metamorphic permutation invariance (all permutations for small lists) across three constructors',
+            'Every supplied order must give the same reader order and merged text; IDs of mixed digit counts.', '7/C10'),
+    'C11': ('exhaustive count/ID-pattern enumeration evaluated in fresh python / -O / -OO interpreters',
+            'All combinations of 0..3 roCreates x 0..3 roDeletes x 0..3 others x 5 ID patterns x allow_incomplete in three interpreter configurations.', '7/C11'),
     'C12': ('exception containment with (type, innermost frame) bucketing over enumerations, Hypothesis steps, histories, collections',
             'Any non-mosromgr exception leaving classification or `ro += msg` is a violation; buckets keep the search alive.', '7/C12'),
+    'C13': ('Hypothesis rule-based machine over four running orders (live objects vs fresh copies, re-used objects)',
+            'Observational independence: str() of every merged message object and of twin running orders compared after every step.', '7/C13'),
+    'C14': ('round-trip (write/read) invariant at every state of Hypothesis histories',
+            'Serialise, re-read, compare text/tree/state; envelope invariants.', '7/C14'),
+    'C15': ('exhaustive optional-data subsets + Hypothesis documents + histories; accessor totality and agreement with direct XML reads',
+            'All 8 timing shapes per story for <= 2 (quick) / 3 (thorough) stories; every documented accessor called.', '7/C15'),
+    'C16': ('Hypothesis duration/time vectors + histories vs values recomputed from the XML',
+            'Arithmetic identities recomputed independently (datetime.fromisoformat, float sums) with stated tolerances.', '7/C16'),
+    'C17': ('Hypothesis paragraph/item interleavings + histories vs independent reading of the story children',
+            'Filter and order oracle reimplemented from the property statement.', '7/C17'),
+    'C18': ('differential across {file,str,bytes,S3} with a model-faithful fake S3; listing oracle over generated buckets',
+            'The real S3 helper bodies run against the fake; pages, prefixes and suffixes generated.', '7/C18'),
+    'C19': ('differential CLI vs library over generated file sets and option combinations (in-process + subprocess sample)',
+            'stdout/stderr/status/-o file compared with MosFile/MosCollection results.', '7/C19'),
+    'C20': ('exhaustive message shapes + Hypothesis messages; accessors vs IDs read from the message text',
+            '26 classes x 1..4 sources x target present/blank/absent x compact/pretty.', '7/C20'),
 }
 
 
